@@ -12,22 +12,22 @@ ALG_NOTE = "Small scope: all graphs of the enumerated families (<= 4-5 nodes) pl
 CHECKS = {
     "C01": dict(
         level="model_checking",
-        technique="TLA+ state machine (GraphMachine) model-checked by TLC for all 96 GraphSpecs; recorded call forests validated by a TLC trace monitor; TLC random walks replayed into the library",
-        text="TLC exhausts the abstract mutation machine within small bounds under all 96 GraphSpecs (well-formedness, rejected-changes-nothing, append-only names); every recorded real call (exhaustive operation sequences to depth 2-3, random histories with batch forms) is checked step by step against AddEdgeRule/AddNodeRule by TLC running MonitorMut; model walks are replayed into the library and compared state by state.",
+        technique="TLA+ state machine (GraphMachine) model-checked by TLC for all 96 GraphSpecs; recorded call forests and every add_node/add_edge call executed by the repository's own test suite (mutation hook) validated by a TLC trace monitor; TLC random walks replayed into the library",
+        text="TLC exhausts the abstract mutation machine within small bounds under all 96 GraphSpecs (well-formedness, rejected-changes-nothing, append-only names); every recorded real call (exhaustive operation sequences to depth 2-3, random histories with batch forms) is checked step by step against AddEdgeRule/AddNodeRule by TLC running MonitorMut; model walks are replayed into the library and compared state by state; the repository's test suite is run with the mutation hook and each of its recorded calls is validated the same way.",
         note=MUT_NOTE, design="4/C01"),
     "C02": dict(
         level="model_checking",
-        technique="TLC model checking of the implementation-shaped store machine (StoreMachine) + TLC trace monitor comparing the full read-API table and the hook snapshot of the private indexes with GraphQuery/GraphStore",
+        technique="TLC model checking of the implementation-shaped store machine (StoreMachine) + TLC trace monitor comparing the full read-API table and the hook snapshot of the private indexes (harness forests and the repository's own test executions) with GraphQuery/GraphStore",
         text="TLC checks for all 96 GraphSpecs that the twelve indexes, updated by the rules of creation.rs, always describe the abstract state; on recorded executions every state of the depth-2 forest and of random histories is asked every read API for every ordered pair / node / subset incl. an absent name, and TLC compares each answer and each private index with the specification.",
         note=MUT_NOTE, design="4/C02"),
     "C03": dict(
         level="model_checking",
-        technique="TLC model checking of StoreMachine (InvAdjMatches) + TLC trace monitor on snapshots of successors_vec/predecessors_vec + weighted algorithm answers judged against Paths/Centrality evaluated on get_all_edges() alone",
+        technique="TLC model checking of StoreMachine (InvAdjMatches) + TLC trace monitor on snapshots of successors_vec/predecessors_vec (harness forests and the repository's own test executions) + weighted algorithm answers judged against Paths/Centrality evaluated on get_all_edges() alone",
         text="TLC shows on the store machine that the traversal lists hold exactly the stored neighbours with the least stored weight under every duplicate policy (and finds the counterexample for the rule as pinned); recorded snapshots after every mutation and weighted Dijkstra/betweenness/closeness on duplicate-insertion histories are validated by the monitor.",
         note=MUT_NOTE, design="4/C03"),
     "C04": dict(
         level="model_checking",
-        technique="TLA+ definitions (Paths: relaxation distance, tight-edge DAG path sets) model-checked against brute force; TLC-enumerated graph families replayed into the library; answers judged by a TLC trace monitor",
+        technique="TLA+ state machine of the Dijkstra search loop (DijkstraMech) model-checked against the TLA+ definitions (Paths: relaxation distance, tight-edge DAG path sets), themselves model-checked against brute force; TLC-enumerated graph families replayed into the library; answers judged by a TLC trace monitor",
         text="Every graph of the TLC-enumerated families and random graphs of all 8 kinds: single_source from every source, all_pairs, multi_source (all-paths, first-only, distance-only; hop-count and weighted incl. zero weights) are compared by TLC with Dist/ShortestPaths: reported set = reachable set, distances equal, every path valid, path set complete and duplicate-free for positive weights.",
         note=ALG_NOTE, design="4/C04"),
     "C05": dict(
@@ -76,7 +76,7 @@ CHECKS = {
     "C19": dict(
         level="model_checking",
         technique="TLA+ reader contract over an abstract token alphabet; TLC enumerates every token document of bounded length, each is rendered and read in a watchdog child process and judged by a TLC monitor; plus every single-point corruption of well-formed documents",
-        text="All documents of up to 2/3 content units over 59 units x header variants (missing / duplicated / undecodable attributes, non-numeric weights, stray data, unknown elements, mismatched end tags, truncation) must yield Ok or Err, with Err where an element cannot be represented and, for Ok, exactly the node and edge elements under the C01 rules with the declared directedness; every deletion / duplication / truncation / bit flip of generated documents must yield Ok or Err.",
+        text="All documents of up to 2/3 content units over 65 units x header variants (missing / duplicated / undecodable attributes, non-numeric weights, stray data, unknown elements, mismatched end tags, end of input inside a tag / an open edge / weight or other data / a comment / CDATA) must yield Ok or Err, with Err where an element cannot be represented and, for Ok, exactly the node and edge elements under the C01 rules with the declared directedness; every deletion / duplication / truncation / bit flip of generated documents must yield Ok or Err.",
         note="Bounded document length; renderer from tokens to text is trusted; panics are observed through catch_unwind, aborts and hangs through the child-process watchdog.",
         design="4/C19"),
     "C11": dict(
@@ -91,13 +91,13 @@ CHECKS = {
         note=ALG_NOTE, design="4/C12"),
     "C13": dict(
         level="model_checking",
-        technique="TLA+ contract of the Louvain result (nested partitions into non-empty sets, exact modularity monotonicity) judged by a TLC trace monitor; every call runs in a watchdog child process so that non-termination is an observed outcome",
+        technique="TLA+ state machine of the local-move phase with exact integer gains (LouvainMech) model-checked for termination (lexicographic potential) with the pinned rule refuted; TLA+ contract of the Louvain result (nested partitions into non-empty sets, exact modularity monotonicity) judged by a TLC trace monitor; every call runs in a watchdog child process so that non-termination is an observed outcome",
         text="louvain_partitions / louvain_communities for several seeds, resolutions and thresholds on every enumerated graph and on random graphs of all kinds must return within the deadline a non-empty list of levels, each a partition into non-empty sets, each coarsening the previous one, with exact rational modularity non-decreasing on single-edge graphs and the first level at least as good as singletons.",
         note="Termination is observed (10 s deadline for calls that normally take < 5 ms), not proved; graphs up to 9 / 14 nodes. Trusted: watchdog, canonicalisation, TLC.", design="4/C13"),
     "C17": dict(
         level="exploration",
         technique="repeated execution (in process, fresh processes, rayon pool sizes) of seeded calls on tie-heavy graphs; all results of one argument tuple must be identical (TLC monitor MonitorRepro)",
-        text="Each argument tuple of louvain_partitions / louvain_communities / fast_gnp_random_graph is evaluated 30/300 times in one process, in 5/20 fresh processes and under pools of 1, 4 and 16 threads on paths, cycles, complete graphs, stars, barbell, grid and cube graphs (directed and undirected) and random graphs; non-randomised suites are run three times per graph.",
+        text="Each argument tuple of louvain_partitions / louvain_communities / fast_gnp_random_graph is evaluated 30/300 times in one process, in 5/20 fresh processes and under pools of 1, 4 and 16 threads (generator: 1, 2, 3, 8 threads, n up to 1500) on paths, cycles, complete graphs, stars, barbell, grid and cube graphs (directed and undirected) and random graphs; non-randomised suites are run three times per graph, and on graphs above the parallel threshold under pools of 1, 2 and 8 threads.",
         note="Hash-order dependence shows only with some probability per call; it is sampled by repetition, not enumerated. The specification part is the equality requirement.", design="4/C17"),
     "C18": dict(
         level="other",
@@ -143,12 +143,12 @@ def main():
           for p in ALL if p not in CHECKS]
     m = {
         "version": 1,
-        "setup_cmd": "cd /verif/harness && (test -f Cargo.lock || cp /repo/Cargo.lock Cargo.lock) && CARGO_NET_OFFLINE=true cargo build --offline && CARGO_NET_OFFLINE=true cargo build --offline --release",
+        "setup_cmd": "cd /verif/harness && (test -f Cargo.lock || cp /repo/Cargo.lock Cargo.lock) && CARGO_NET_OFFLINE=true cargo build --offline && CARGO_NET_OFFLINE=true cargo build --offline --release && cd /repo && RUSTFLAGS='--cfg graphrs_verif' RUSTDOCFLAGS='--cfg graphrs_verif' CARGO_TARGET_DIR=/verif/harness/target-rt CARGO_NET_OFFLINE=true cargo test --offline --workspace --no-run",
         "hooks": {
             "guard": "--cfg graphrs_verif",
-            "enable": "harness/.cargo/config.toml passes rustflags --cfg graphrs_verif to every crate of the harness build (path dependency on /repo)",
+            "enable": "harness/.cargo/config.toml passes rustflags --cfg graphrs_verif to every crate of the harness build (path dependency on /repo); the mutation-trace hook additionally needs GRAPHRS_VERIF_TRACE=<path prefix> in the environment (rtrace.py runs /repo's test suite that way with RUSTFLAGS='--cfg graphrs_verif' and its own target directory)",
             "baseline_off_cmd": "cd /repo && cargo test --workspace --no-fail-fast --offline",
-            "source_commits": ["6fdc981", "8590283"],
+            "source_commits": ["6fdc981", "8590283", "7499450"],
             "add_only": True,
         },
         "engines": [
